@@ -153,3 +153,66 @@ func init() {
 			"free": len(pool.freePool), "held": len(pool.inventory)}, nil
 	})
 }
+
+// c06_same: rounds in which G goroutines, released by a barrier, ask at the same time for the SAME session id
+// that is not yet known. Every caller must be told the same address (sticky under concurrency), and afterwards
+// free + held must still be the whole pool (a lost address shows as a refusal while nothing is held).
+func init() {
+	verifRegister("c06_same", func(raw json.RawMessage) (interface{}, error) {
+		var in struct {
+			Cidr          string
+			G, Rounds     int
+			Size          uint32
+			ReleaseEveryN int
+		}
+		if err := json.Unmarshal(raw, &in); err != nil {
+			return nil, err
+		}
+		pool, err := NewIPPool(in.Cidr)
+		if err != nil {
+			return map[string]interface{}{"new_ok": false}, nil
+		}
+		viol := []string{}
+		for r := 0; r < in.Rounds && len(viol) < 3; r++ {
+			seid := uint64(r + 1)
+			start := make(chan struct{})
+			res := make([]uint32, in.G)
+			errs := make([]bool, in.G)
+			var wg sync.WaitGroup
+			for g := 0; g < in.G; g++ {
+				wg.Add(1)
+				go func(g int) {
+					defer wg.Done()
+					<-start
+					ip, err := pool.LookupOrAllocIP(seid)
+					if err != nil {
+						errs[g] = true
+						return
+					}
+					res[g] = ip2int(ip)
+				}(g)
+			}
+			close(start)
+			wg.Wait()
+			for g := 1; g < in.G; g++ {
+				if errs[g] != errs[0] || res[g] != res[0] {
+					viol = append(viol, "same-session-different-answers")
+					break
+				}
+			}
+			// keep the pool from filling up: release the session again
+			if !errs[0] {
+				if err := pool.DeallocIP(seid); err != nil {
+					viol = append(viol, "release-of-holder-failed")
+				}
+			}
+			pool.mu.Lock()
+			total := len(pool.freePool) + len(pool.inventory)
+			pool.mu.Unlock()
+			if total != int(in.Size)-2 {
+				viol = append(viol, "address-lost-or-duplicated")
+			}
+		}
+		return map[string]interface{}{"new_ok": true, "violations": viol}, nil
+	})
+}
